@@ -8,7 +8,7 @@ from mir import loc_str, short
 
 LEVEL = "other"
 EXPLANATION = (
-    "Decides structural clauses of C09.  R-C09-1 pair-count misuse: HashMap::len of the pair-keyed edge stores is a count of "
+    "Decides structural clauses of C09.  R-C09-6 the writers of the pair-keyed edge stores obey the canonical-key discipline (same rule as R-C02-3): a pair filed under a second key would be counted twice by number_of_edges / size / density.  R-C09-1 pair-count misuse: HashMap::len of the pair-keyed edge stores is a count of "
     "connected PAIRS; a function whose result depends on it must be restricted to single-edge graphs (get_density: documented scope); "
     "number_of_edges must be derived from the per-pair lists (like size(false)).  R-C09-2 (feature adjacency_matrix) the triplets "
     "given to TriMat::from_triplets depend on specs.directed (undirected edges are stored under one orientation only, so a matrix "
@@ -26,6 +26,13 @@ def run(ctx):
     flows = Flows(prog)
     ctx.assume(ASSUME_RUSTC)
     ctx.assume(ASSUME_PATHS)
+
+    # ------------------------------------------------------------------ R-C09-6
+    # counts, sizes and densities read the pair-keyed store `edges`: one pair filed under two keys is counted twice
+    from props.c02 import key_discipline
+
+    ae = prog.one("creation::Graph::add_edge")
+    key_discipline(ctx, prog, flows, "R-C09-6", prog.reachable_bodies([ae.path]), 2, 2, why=" -- restricted to add_edge and its callees: number_of_edges / size / density count the entries of `edges`, so a pair stored under a second key is counted twice")
 
     # ------------------------------------------------------------------ R-C09-1
     ctx.rule("R-C09-1", "no edge count is taken from the number of keys of the pair-keyed edge stores on a multi-edge path")
